@@ -83,7 +83,7 @@ func init() {
 				cse.TimeoutMS = 60000
 				cs = append(cs, cse)
 			}
-			for i, s := range []string{"blocked-stop", "parked-dispatch", "cancel-blocked-stop", "restart-rearm", "restart-from-last", "stop-at-once", "double-stop", "long-blocked-stop", "zero-delay-middle", "equal-frequency-neighbours", "unsorted-delays", "restarts-during-report", "restart-at-start", "restart-before-first-delay", "restart-after-stop", "overrun-then-switch"} {
+			for i, s := range []string{"blocked-stop", "parked-dispatch", "cancel-blocked-stop", "restart-rearm", "restart-from-last", "stop-at-once", "double-stop", "long-blocked-stop", "zero-delay-middle", "equal-frequency-neighbours", "unsorted-delays", "restarts-during-report", "restart-at-start", "restart-before-first-delay", "restart-after-stop", "overrun-then-switch", "slow-then-fast"} {
 				reps := 2
 				if tier == "thorough" {
 					reps = 8
@@ -107,7 +107,14 @@ func init() {
 					if s == "restart-at-start" {
 						p.Scheds = []c18Sched{{0, 5}}
 					}
-					if s == "overrun-then-switch" {
+					if s == "slow-then-fast" {
+					// a schedule whose period is far longer than the start delay of its successor never fires at all
+					p.Scheds = []c18Sched{{0, 4000 + 500*rep}, {80, 15}}
+					if rep%2 == 1 {
+						p.Scheds = []c18Sched{{0, 20}, {60, 5000}, {90, 10}}
+					}
+				}
+				if s == "overrun-then-switch" {
 						p.Scheds = []c18Sched{{0, 20}, {250, 50}}
 					}
 					if s == "restart-before-first-delay" {
@@ -495,6 +502,62 @@ func c18Script(c *core.Case, o *core.Outcome) {
 			return
 		}
 		o.AddObs("invocations", int64(len(invs)))
+	case "slow-then-fast":
+		// the successor of a slow schedule takes over after its own start delay, whether or not the slow one has fired yet
+		rc := &c18Rec{l: l}
+		runner, _ := raterun.New(rc.c18fn, c18Schedules(&p))
+		var maxGap atomic.Int64
+		stopMon := make(chan struct{})
+		go func() {
+			// the process's own hiccups, for telling a starved machine from an idle runner
+			prev := time.Now()
+			for {
+				select {
+				case <-stopMon:
+					return
+				case <-time.After(5 * time.Millisecond):
+				}
+				if g := int64(time.Since(prev)); g > maxGap.Load() {
+					maxGap.Store(g)
+				}
+				prev = time.Now()
+			}
+		}()
+		last := p.Scheds[len(p.Scheds)-1]
+		fast := time.Duration(last.FreqMS) * time.Millisecond
+		slowIdx := len(p.Scheds) - 2
+		slow := time.Duration(p.Scheds[slowIdx].FreqMS) * time.Millisecond
+		runner.Start(ctx)
+		deadline := time.Now().Add(3400 * time.Millisecond)
+		sawFast, sawSlow := false, false
+		for time.Now().Before(deadline) && !sawFast && !sawSlow {
+			time.Sleep(20 * time.Millisecond)
+			rc.mu.Lock()
+			for _, in := range rc.invs {
+				if in.freq == fast {
+					sawFast = true
+				}
+				if in.freq == slow {
+					sawSlow = true
+				}
+			}
+			rc.mu.Unlock()
+		}
+		runner.Stop()
+		close(stopMon)
+		rc.mu.Lock()
+		n := len(rc.invs)
+		rc.mu.Unlock()
+		o.AddObs("invocations", int64(n))
+		if !sawFast {
+			if g := time.Duration(maxGap.Load()); g > time.Second {
+				o.Inconc("the machine stalled for %v during the script", g)
+				return
+			}
+			o.Violate(key, "schedules %v: the schedule with a %v period was due %d ms after its predecessor began (the predecessor's own period is %v, so it has not fired by then); after 3.4 s (longest hiccup of this process: %v) the function had been invoked %d times, never at %v, at %v: %v - the runner did not move to the next schedule after its start delay",
+				p.Scheds, fast, last.DelayMS, slow, time.Duration(maxGap.Load()), n, fast, slow, sawSlow)
+			return
+		}
 	case "zero-delay-middle":
 		// a schedule with start delay 0 in the middle of the list takes over at once; the one after it still
 		// waits for its own start delay
